@@ -197,7 +197,7 @@ class ElemSource:
 
 def beh_mask(r):
     m = 0b1101111  # defaults of the seven cursor flags (ignored by the code)
-    if r.chance(1, 4):
+    if r.chance(1, 3):
         m = r.below(128)
     for bit in (7, 8, 9, 10, 11):
         if r.chance(1, 2):
@@ -271,6 +271,8 @@ def gen_term_case(r, idx, wild=False, nops=None, kinds=None):
                         x, y = (cur if 0 <= cur[0] < w and cur[1] < h else (x, y))
                 if r.chance(1, 4):
                     x = max(w - 1 - r.below(2), 0)
+                elif r.chance(1, 6):
+                    x = 0
             cur = (x, y)
             lines.append("T 0 move %d %d" % (x, y))
         elif k < 22:
@@ -323,6 +325,7 @@ def gen_screen_case(r, idx, wild=False):
     lines.append("K 0 new %d %d" % (w, h))
     es = ElemSource(r, wild)
     cellmap = {}
+    holding = False
     sized = False
     for frame in range(r.rng(1, 5)):
         if r.chance(1, 4) and frame > 0:
@@ -335,6 +338,7 @@ def gen_screen_case(r, idx, wild=False):
             else:
                 w, h = w + r.below(2), max(1, h - r.below(2))
             lines.append("K 0 resize %d %d" % (w, h))
+            holding = False        # resizing invalidates iterators and references
         nset = r.pick([0, 0, 1, 1, 2, 3, w, w * h])
         if frame > 0 and r.chance(1, 6):
             # modification through the iterators rather than operator[]
@@ -356,6 +360,14 @@ def gen_screen_case(r, idx, wild=False):
             nums = tuple(int(v) for v in txt.split())
             cellmap[(x, y)] = (nums[:4], nums[4:])
             lines.append("K 0 set %d %d %s" % (x, y, txt))
+        if not wild and frame > 0 and holding and r.chance(1, 2):
+            # a handle taken before the previous draw is written through now
+            txt = es.next()
+            lines.append("K 0 heldset %d %s" % (r.below(3), txt))
+        holding = False
+        if not wild and r.chance(1, 6):
+            lines.append("K 0 hold %d %d" % (r.below(w), r.below(h)))
+            holding = True
         if not wild and r.chance(1, 5):
             # the application switches a mode between two frames
             lines.append("T 0 " + r.pick(["hide", "hide", "show", "mouse 1", "mouse 0", "buf 1", "buf 0", "title 6162"]))
@@ -958,14 +970,30 @@ def gen_canvas_alias_case(r, idx):
             n += 1
             lines.append("K 0 set %d %d %s" % (x, y, el((5, 0x41 + n % 50, 0, 0), DEFAULT_ATTR)))
     k = 1
+    held = {}       # canvas id -> True while a handle taken on it is still valid
     for _ in range(r.rng(2, 8)):
-        c = r.below(6)
+        c = r.below(8)
         ids = sorted(dims)
         if c == 0 and k < 3:
             src = r.pick(ids)
             lines.append("K %d copy %d" % (k, src))
             dims[k] = dims[src]
             k += 1
+        elif c == 6:
+            # take an iterator / column handle / reference to a cell now ...
+            t = r.pick(ids)
+            tw, th = dims[t]
+            if tw * th > 0:
+                lines.append("K %d hold %d %d" % (t, r.below(tw), r.below(th)))
+                held[t] = True
+            continue
+        elif c == 7:
+            # ... and write through it later (after copies of the canvas were made)
+            t = r.pick(ids)
+            if held.get(t):
+                lines.append("K %d heldset %d %s" % (t, r.below(3), el(wf_glyph(r), wf_attr(r))))
+            else:
+                continue
         else:
             t = r.pick(ids)
             tw, th = dims[t]
@@ -980,6 +1008,7 @@ def gen_canvas_alias_case(r, idx):
                 nw, nh = r.rng(0, 4), r.rng(0, 3)
                 lines.append("K %d resize %d %d" % (t, nw, nh))
                 dims[t] = (nw, nh)
+                held[t] = False       # resizing invalidates iterators and references
             else:
                 continue
         for i in sorted(dims):
